@@ -90,10 +90,10 @@ claim("C19",
       "Static analysis (level other): decides table agreement between the kern/MEI writers and readers (inverse on the "
       "writers' domain for pitch letters, duration codes, accidentals), the duration-type universe (every type a reader "
       "can produce is a key of LABEL_DURS), conformance of every library call and narrowed attribute read inside the two "
-      "exporters, and the loader's dispatch by lower-cased extension with a raising else. What a given MEI/kern document "
-      "denotes is not decided.",
+      "exporters, the loader's dispatch by lower-cased extension with a raising else, and the kern dotted-value function folded "
+      "at constant arguments in exact rationals (DOTS-fold). What a given MEI/kern document denotes is otherwise not decided.",
       _NOTE, "constant-folded inverse-table checks, call-signature conformance, isinstance-narrowed attribute existence, "
-             "dispatch lifting", "DESIGN.md §4 C19")
+             "dispatch lifting, constant folding of a closed arithmetic function", "DESIGN.md §4 C19, §17")
 
 claim("C13",
       "Static analysis (level other): decides the permutation and plumbing clauses of the piano roll — all four columns "
